@@ -7,8 +7,8 @@
    returns "0 bytes, no error" and only drops the chunk (and the per-call UTF-8
    counter). The invariants of ReaderInv.v are taken on the stripped reader; the
    loop lemmas of ReaderProofs.v are redone with a measure that counts idle reads.
-   Side condition [nt_chunks]: no idle read between the last byte and the end of
-   the stream (there the model's ReadFull reports an unexpected EOF, see C04). *)
+   No side condition on where the idle reads are: also between the last byte and
+   the end of the stream (io.ReadFull then still reports a clean io.EOF). *)
 Require Import Bytes Stream Utf8Spec Check Frame Cipher Utf8Dfa Extracted ExtractedOk Reader
   BytesProofs StreamProofs CheckProofs FrameProofs CipherProofs Utf8Proofs ReaderLocalProofs
   ReaderAux ReaderInv ReaderProofs ReaderMoreProofs ReaderIdle StreamIdleProofs.
@@ -16,39 +16,38 @@ From Coq Require Import ZifyBool ZifyN ZifyNat.
 Open Scope N_scope.
 
 Notation sr := strip_reader.
-Definition nt_r (r : reader) : Prop := nt_chunks (chunks (r_src r)).
 Definition idle_r (r : reader) : nat := idle_reads (r_src r).
 
-Ltac isimpl := unfold strip_reader, nt_r, idle_r in *; rsimpl.
+Ltac isimpl := unfold strip_reader, idle_r in *; rsimpl.
 Ltac fin := repeat split; try assumption; try reflexivity; try lia; try congruence.
 
 (* ------------------------------------------------------------------ NextFrame commutes with strip *)
-Lemma reader_read_header_strip s : nt_chunks (chunks s) ->
+Lemma reader_read_header_strip s :
   let '(out, s1) := reader_read_header s in
-  reader_read_header (strip s) = (out, strip s1) /\ nt_chunks (chunks s1) /\
+  reader_read_header (strip s) = (out, strip s1) /\
   (idle_reads s1 <= idle_reads s)%nat /\ tl s1 = tl s.
 Proof.
-  intros Hnt. unfold reader_read_header.
-  pose proof (read_full_strip 2 s Hnt) as H1.
-  destruct (read_full 2 s) as [[b e] s1]. destruct H1 as (-> & Hnt1 & Hid1 & Ht1).
+  unfold reader_read_header.
+  pose proof (read_full_strip 2 s) as H1.
+  destruct (read_full 2 s) as [[b e] s1]. destruct H1 as (-> & Hid1 & Ht1).
   destruct e as [e|]; [fin|].
   destruct (parse_first2 (nthb b 0) (nthb b 1)) as [[h l7] extra].
   destruct (extra =? 0); [fin|].
-  pose proof (read_full_strip extra s1 Hnt1) as H2.
-  destruct (read_full extra s1) as [[x e2] s2]. destruct H2 as (-> & Hnt2 & Hid2 & Ht2).
+  pose proof (read_full_strip extra s1) as H2.
+  destruct (read_full extra s1) as [[x e2] s2]. destruct H2 as (-> & Hid2 & Ht2).
   destruct e2 as [e2|]; [fin|].
   destruct ((l7 =? 127) && negb (N.land (nthb x 0) 128 =? 0)); [fin|].
   destruct (l7 =? 126); [fin|]. destruct (l7 =? 127); fin.
 Qed.
 
-Lemma next_frame_strip r : nt_r r ->
+Lemma next_frame_strip r :
   let '(out, r1) := next_frame r in
-  next_frame (sr r) = (out, sr r1) /\ nt_r r1 /\ (idle_r r1 <= idle_r r)%nat /\ tl (r_src r1) = tl (r_src r).
+  next_frame (sr r) = (out, sr r1) /\ (idle_r r1 <= idle_r r)%nat /\ tl (r_src r1) = tl (r_src r).
 Proof.
-  destruct r as [s st sk ck mx ex cp cb op fr rn mk ky cps uw us ua lg]. intros Hnt.
+  destruct r as [s st sk ck mx ex cp cb op fr rn mk ky cps uw us ua lg].
   unfold next_frame. isimpl.
-  pose proof (reader_read_header_strip s Hnt) as H1.
-  destruct (reader_read_header s) as [hr s1]. destruct H1 as (-> & Hnt1 & Hid1 & Ht1).
+  pose proof (reader_read_header_strip s) as H1.
+  destruct (reader_read_header s) as [hr s1]. destruct H1 as (-> & Hid1 & Ht1).
   destruct hr as [e|hdr]; [isimpl; fin|].
   destruct (if sk then None else check_header hdr st) as [rl|]; [isimpl; fin|].
   destruct ((0 <? mx)%Z && (mx <? h_len hdr)%Z); [isimpl; fin|].
@@ -56,16 +55,16 @@ Proof.
   destruct (st_fragmented st && op_is_control (h_op hdr')); [|isimpl; fin].
   destruct cb.
   - unfold raw_drain. isimpl.
-    pose proof (read_full_strip (Z.to_N (h_len hdr)) s1 Hnt1) as H2.
-    destruct (read_full (Z.to_N (h_len hdr)) s1) as [[b e] s2]. destruct H2 as (-> & Hnt2 & Hid2 & Ht2).
+    pose proof (read_full_strip (Z.to_N (h_len hdr)) s1) as H2.
+    destruct (read_full (Z.to_N (h_len hdr)) s1) as [[b e] s2]. destruct H2 as (-> & Hid2 & Ht2).
     destruct e as [[| |]|]; isimpl; fin.
   - unfold cb_read_all. isimpl.
-    pose proof (read_full_strip (Z.to_N (h_len hdr)) s1 Hnt1) as H2.
-    destruct (read_full (Z.to_N (h_len hdr)) s1) as [[b e] s2]. destruct H2 as (-> & Hnt2 & Hid2 & Ht2).
+    pose proof (read_full_strip (Z.to_N (h_len hdr)) s1) as H2.
+    destruct (read_full (Z.to_N (h_len hdr)) s1) as [[b e] s2]. destruct H2 as (-> & Hid2 & Ht2).
     destruct e as [[| |]|]; try (isimpl; fin).
     unfold raw_drain. isimpl.
-    pose proof (read_full_strip (Z.to_N (h_len hdr) - len b) s2 Hnt2) as H3.
-    destruct (read_full (Z.to_N (h_len hdr) - len b) s2) as [[b3 e3] s3]. destruct H3 as (-> & Hnt3 & Hid3 & Ht3).
+    pose proof (read_full_strip (Z.to_N (h_len hdr) - len b) s2) as H3.
+    destruct (read_full (Z.to_N (h_len hdr) - len b) s2) as [[b3 e3] s3]. destruct H3 as (-> & Hid3 & Ht3).
     destruct e3 as [[| |]|]; isimpl; fin.
 Qed.
 
@@ -86,35 +85,35 @@ Qed.
 (* the head chunk holds bytes, the transport is at its end, or the payload is exhausted *)
 Definition no_stutter (r : reader) : Prop := r_rawN r = 0 \/ forall cs, chunks (r_src r) <> [] :: cs.
 
-Lemma frame_read_strip k r : nt_r r -> no_stutter r ->
+Lemma frame_read_strip k r : no_stutter r ->
   let '(out, r1) := frame_read k r in
-  frame_read k (sr r) = (out, sr r1) /\ nt_r r1 /\ idle_r r1 = idle_r r.
+  frame_read k (sr r) = (out, sr r1) /\ idle_r r1 = idle_r r.
 Proof.
-  destruct r as [s st sk ck mx ex cp cb op fr rn mk ky cps uw us ua lg]. intros Hnt Hns.
+  destruct r as [s st sk ck mx ex cp cb op fr rn mk ky cps uw us ua lg]. intros Hns.
   unfold no_stutter in Hns. unfold frame_read, raw_read. isimpl.
   destruct (rn =? 0) eqn:Ern.
   - isimpl. destruct mk, uw; cbn [u8_scan cipher]; isimpl; fin.
   - destruct Hns as [Hns|Hns]; [lia|].
-    pose proof (read1_strip (N.min k rn) s Hnt Hns) as H1.
-    destruct (read1 (N.min k rn) s) as [[b e] s1]. destruct H1 as (-> & Hnt1 & Hid1).
+    pose proof (read1_strip (N.min k rn) s Hns) as H1.
+    destruct (read1 (N.min k rn) s) as [[b e] s1]. destruct H1 as (-> & Hid1).
     isimpl. destruct uw.
     + destruct (u8_scan us 0 0 (if mk then cipher b ky cps else b)) as [[st' acc] rej].
       destruct rej; isimpl; fin.
     + isimpl; fin.
 Qed.
 
-Lemma rgo_strip k r : nt_r r -> no_stutter r ->
+Lemma rgo_strip k r : no_stutter r ->
   let '(out, r') := rgo k r in
-  rgo k (sr r) = (out, sr r') /\ nt_r r' /\ idle_r r' = idle_r r.
+  rgo k (sr r) = (out, sr r') /\ idle_r r' = idle_r r.
 Proof.
-  intros Hnt Hns. unfold rgo.
-  pose proof (frame_read_strip k r Hnt Hns) as H1.
-  destruct (frame_read k r) as [[data e] r2]. destruct H1 as (-> & Hnt2 & Hid2).
+  intros Hns. unfold rgo.
+  pose proof (frame_read_strip k r Hns) as H1.
+  destruct (frame_read k r) as [[data e] r2]. destruct H1 as (-> & Hid2).
   change (r_rawN (sr r2)) with (r_rawN r2).
   assert (HE: let '(o, r') := rat_eof data r2 in
-              rat_eof data (sr r2) = (o, sr r') /\ nt_r r' /\ idle_r r' = idle_r r).
+              rat_eof data (sr r2) = (o, sr r') /\ idle_r r' = idle_r r).
   { rewrite rat_eof_strip. pose proof (rat_eof_src data r2) as Hs.
-    destruct (rat_eof data r2) as [o r']. cbn [snd] in Hs. unfold nt_r, idle_r in *. rewrite Hs. fin. }
+    destruct (rat_eof data r2) as [o r']. cbn [snd] in Hs. unfold idle_r in *. rewrite Hs. fin. }
   destruct e as [[[| |]| | | | | | | |]|]; try (fin; fail); try exact HE.
   destruct (negb (r_rawN r2 =? 0)); [fin|exact HE].
 Qed.
@@ -148,8 +147,8 @@ Proof.
 Qed.
 
 (* ------------------------------------------------------------------ the invariants, on the stripped reader *)
-Definition Bnd' c openm lg rest r : Prop := Bnd c openm lg rest (sr r) /\ nt_r r.
-Definition Mid' c m f pre post lg rest r : Prop := Mid c m f pre post lg rest (sr r) /\ nt_r r.
+Definition Bnd' c openm lg rest r : Prop := Bnd c openm lg rest (sr r).
+Definition Mid' c m f pre post lg rest r : Prop := Mid c m f pre post lg rest (sr r).
 
 (* bytes still on the wire + idle reads still to come *)
 Definition sz (r : reader) : nat := (length (flat (r_src r)) + idle_r r)%nat.
@@ -172,8 +171,8 @@ Lemma next_frame_eof' c openm lg r : Bnd' c openm lg [] r ->
   exists h r', next_frame r = ((h, Some (RIo (if is_some openm then EUnexpected else EEOF))), r')
                /\ r_log r' = lg.
 Proof.
-  intros [HB Hnt]. destruct (next_frame_eof c openm lg (sr r) HB) as (h & r2 & Hnf & Hlg).
-  pose proof (next_frame_strip r Hnt) as S. destruct (next_frame r) as [out r1]. destruct S as (S1 & _).
+  intros HB. destruct (next_frame_eof c openm lg (sr r) HB) as (h & r2 & Hnf & Hlg).
+  pose proof (next_frame_strip r) as S. destruct (next_frame r) as [out r1]. destruct S as (S1 & _).
   rewrite Hnf in S1. injection S1 as <- ->. exists h, r1. split; [reflexivity|exact Hlg].
 Qed.
 
@@ -194,14 +193,14 @@ Lemma next_frame_spec' c openm lg f rest r : wf_cfg c -> Bnd' c openm lg (f :: r
            forall k evs, spec_run c k openm evs (f :: rest) = spec_data c k (msg_of c openm f) evs f rest))
   end.
 Proof.
-  intros Hc [HB Hnt]. destruct (next_frame_spec c openm lg f rest (sr r) Hc HB) as (h & e & r2 & Hnf & H).
-  pose proof (next_frame_strip r Hnt) as S. destruct (next_frame r) as [out r1]. destruct S as (S1 & Hnt1 & Hid1 & _).
+  intros Hc HB. destruct (next_frame_spec c openm lg f rest (sr r) Hc HB) as (h & e & r2 & Hnf & H).
+  pose proof (next_frame_strip r) as S. destruct (next_frame r) as [out r1]. destruct S as (S1 & Hid1 & _).
   rewrite Hnf in S1. injection S1 as <- ->. exists h, e, r1. split; [reflexivity|].
   destruct e as [err|]; [exact H|].
   destruct H as (Hlen & H). rewrite !flat_sr in Hlen. split; [unfold sz; lia|].
   destruct H as [(m0 & Hm0 & Hfr & HB1 & Hsp)|(Hop & HM & Hsp)].
-  - left. exists m0. split; [exact Hm0|]. split; [exact Hfr|]. split; [split; assumption|exact Hsp].
-  - right. split; [exact Hop|]. split; [split; assumption|exact Hsp].
+  - left. exists m0. split; [exact Hm0|]. split; [exact Hfr|]. split; [exact HB1|exact Hsp].
+  - right. split; [exact Hop|]. split; [exact HM|exact Hsp].
 Qed.
 
 Lemma rgo_step_ns c m f pre post lg rest r kk : wf_cfg c -> Mid' c m f pre post lg rest r -> 0 < kk ->
@@ -218,17 +217,17 @@ Lemma rgo_step_ns c m f pre post lg rest r kk : wf_cfg c -> Mid' c m f pre post 
   (exists d r', rgo kk r = ((d, Some RInvalidUtf8), r') /\ r_log r' = lg /\
       forall k evs, spec_data c k m evs f rest = mkSR evs [] OInvalidUtf8).
 Proof.
-  intros Hc [HM Hnt] Hk Hns.
-  pose proof (rgo_strip kk r Hnt Hns) as S. destruct (rgo kk r) as [out r1]. destruct S as (S1 & Hnt1 & Hid1).
+  intros Hc HM Hk Hns.
+  pose proof (rgo_strip kk r Hns) as S. destruct (rgo kk r) as [out r1]. destruct S as (S1 & Hid1).
   assert (Hmu: forall a b, (mu (sr a) < mu (sr b))%nat -> idle_r a = idle_r b -> (mu' a < mu' b)%nat).
   { intros a b. rewrite !mu_sr. unfold mu, mu', sz. lia. }
   destruct (rgo_step c m f pre post lg rest (sr r) kk Hc HM Hk)
     as [(d & post' & r2 & Hr & Hdp & HM2 & Hmu2)|[(r2 & Hr & HB & Hmu2 & Hsp)|[(r2 & Hr & HB & Hcp & Hle & Hsp)|(d & r2 & Hr & Hlg & Hsp)]]];
     rewrite Hr in S1; injection S1 as <- ->.
-  - left. exists d, post', r1. split; [reflexivity|]. split; [exact Hdp|]. split; [split; assumption|].
+  - left. exists d, post', r1. split; [reflexivity|]. split; [exact Hdp|]. split; [exact HM2|].
     apply Hmu; assumption.
-  - right; left. exists r1. split; [reflexivity|]. split; [split; assumption|]. split; [apply Hmu; assumption|exact Hsp].
-  - right; right; left. exists r1. split; [reflexivity|]. split; [split; assumption|]. split; [exact Hcp|].
+  - right; left. exists r1. split; [reflexivity|]. split; [exact HB|]. split; [apply Hmu; assumption|exact Hsp].
+  - right; right; left. exists r1. split; [reflexivity|]. split; [exact HB|]. split; [exact Hcp|].
     split; [|exact Hsp]. rewrite !flat_sr in Hle. unfold sz. lia.
   - right; right; right. exists d, r1. split; [reflexivity|]. split; [exact Hlg|exact Hsp].
 Qed.
@@ -252,12 +251,10 @@ Proof.
   destruct (chunks (r_src r)) as [|[|x c0] cs] eqn:E.
   - apply rgo_step_ns; try assumption. right. rewrite E. discriminate.
   - (* an idle read inside the payload *)
-    destruct HM' as [HM Hnt].
+    pose proof HM' as HM.
     destruct (rgo_idle kk r cs E ltac:(lia)) as (acc & Hr).
     left. exists [], post, (after_idle r cs acc). split; [exact Hr|]. split; [reflexivity|]. split.
-    + split.
-      * rewrite app_nil_r. apply Mid_after_idle; assumption.
-      * unfold nt_r in *. unfold after_idle. rsimpl. cbn [chunks]. rewrite E in Hnt. apply (nt_tail _ _ Hnt).
+    + rewrite app_nil_r. apply Mid_after_idle; assumption.
     + unfold mu', sz, idle_r, idle_reads, flat, after_idle. rsimpl. cbn [chunks]. rewrite E, idle_cons_idle.
       cbn [concat app]. lia.
   - apply rgo_step_ns; try assumption. right. rewrite E. discriminate.
@@ -265,23 +262,23 @@ Qed.
 
 (* ------------------------------------------------------------------ projections of the primed invariants *)
 Lemma Mid'_frame c m f pre post lg rest r : Mid' c m f pre post lg rest r -> r_frame r = true.
-Proof. intros [H _]. exact (m_frame _ _ _ _ _ _ _ _ H). Qed.
+Proof. intros H. exact (m_frame _ _ _ _ _ _ _ _ H). Qed.
 Lemma Mid'_pay c m f pre post lg rest r : Mid' c m f pre post lg rest r -> sf_payload f = pre ++ post.
-Proof. intros [H _]. exact (m_pay _ _ _ _ _ _ _ _ H). Qed.
+Proof. intros H. exact (m_pay _ _ _ _ _ _ _ _ H). Qed.
 Lemma Mid'_log c m f pre post lg rest r : Mid' c m f pre post lg rest r -> r_log r = lg.
-Proof. intros [H _]. exact (m_log _ _ _ _ _ _ _ _ H). Qed.
+Proof. intros H. exact (m_log _ _ _ _ _ _ _ _ H). Qed.
 Lemma Bnd'_frame c m lg rest r : Bnd' c (Some m) lg rest r -> r_frame r = false.
-Proof. intros [H _]. exact (proj1 (b_msg _ _ _ _ _ H)). Qed.
+Proof. intros H. exact (proj1 (b_msg _ _ _ _ _ H)). Qed.
 Lemma Bnd'_state c openm lg rest r : Bnd' c openm lg rest r -> r_state r = set_fragmented (c_state c) (is_some openm).
-Proof. intros [H _]. exact (b_state _ _ _ _ _ H). Qed.
+Proof. intros H. exact (b_state _ _ _ _ _ H). Qed.
 Lemma Bnd'_log c openm lg rest r : Bnd' c openm lg rest r -> r_log r = lg.
-Proof. intros [H _]. exact (b_log _ _ _ _ _ H). Qed.
+Proof. intros H. exact (b_log _ _ _ _ _ H). Qed.
 Lemma Bnd'_flat c openm lg rest r : Bnd' c openm lg rest r -> flat (r_src r) = wire rest.
-Proof. intros [H _]. destruct (b_src _ _ _ _ _ H) as (_ & _ & Hf). rewrite flat_sr in Hf. exact Hf. Qed.
+Proof. intros H. destruct (b_src _ _ _ _ _ H) as (_ & _ & Hf). rewrite flat_sr in Hf. exact Hf. Qed.
 Lemma Bnd'_tl c openm lg rest r : Bnd' c openm lg rest r -> tl (r_src r) = TEOF.
-Proof. intros [H _]. destruct (b_src _ _ _ _ _ H) as (_ & Ht & _). exact Ht. Qed.
+Proof. intros H. destruct (b_src _ _ _ _ _ H) as (_ & Ht & _). exact Ht. Qed.
 Lemma Bnd'_wf c openm lg rest r : Bnd' c openm lg rest r -> Forall wf_sframe rest.
-Proof. intros [H _]. exact (b_wf _ _ _ _ _ H). Qed.
+Proof. intros H. exact (b_wf _ _ _ _ _ H). Qed.
 
 Definition minv' (c : rcfg) (st : mst) (lg : list event) (rest : list sframe) (r : reader) : Prop :=
   match st with
@@ -422,7 +419,7 @@ Lemma Bnd'_set_log c lg lg' rest r : Bnd' c None lg rest r ->
     (mkR (r_src r) (r_state r) (r_skip r) (r_check_utf8 r) (r_max r) (r_ext r) (r_compressed r) (r_cb r)
          (r_opcode r) (r_frame r) (r_rawN r) (r_masked r) (r_key r) (r_cpos r) (r_u8wrap r) (r_u8state r)
          (r_u8acc r) lg').
-Proof. intros [H Hnt]. split; [|exact Hnt]. exact (Bnd_set_log c lg lg' rest (sr r) H). Qed.
+Proof. intros H. exact (Bnd_set_log c lg lg' rest (sr r) H). Qed.
 
 Lemma drive_spec' c bufs : wf_cfg c -> forall fuel fs k evs lg r,
   Bnd' c None lg fs r -> evs_match evs lg = true -> (sz r + 2 <= fuel)%nat ->
@@ -459,11 +456,11 @@ Proof.
 Qed.
 
 (* ------------------------------------------------------------------ C04 with idle reads *)
-Lemma new_reader_bnd' c fs s : wf_cfg c -> Forall wf_sframe fs -> nt_chunks (chunks s) -> tl s = TEOF ->
+Lemma new_reader_bnd' c fs s : wf_cfg c -> Forall wf_sframe fs -> tl s = TEOF ->
   flat s = wire fs ->
   Bnd' c None [] fs (new_reader s (c_state c) false (c_check_utf8 c) (c_max c) (c_ext c) CbReadAll).
 Proof.
-  intros Hc Hfs Hnt Ht Hfl. split; [|exact Hnt].
+  intros Hc Hfs Ht Hfl. unfold Bnd'.
   unfold new_reader, strip_reader. rsimpl. constructor; rsimpl; cbn [is_some].
   - unfold cfg_ok; rsimpl. repeat split; reflexivity.
   - unfold src_ok; rsimpl. split; [apply wf_strip|]. split; [exact Ht|]. rewrite flat_strip. exact Hfl.
@@ -475,26 +472,26 @@ Proof.
 Qed.
 
 Theorem reader_meets_spec_idle : forall c fs s bufs fuel,
-  wf_cfg c -> Forall wf_sframe fs -> ~ ends_idle s -> tl s = TEOF -> flat s = wire fs ->
+  wf_cfg c -> Forall wf_sframe fs -> tl s = TEOF -> flat s = wire fs ->
   (length (wire fs) + idle_reads s + 2 <= fuel)%nat ->
   let d := drive fuel bufs (new_reader s (c_state c) false (c_check_utf8 c) (c_max c) (c_ext c) CbReadAll) in
   reader_monitor c true fs (dr_events d) (Some (dr_partial d)) (dr_err d) = true.
 Proof.
-  intros c fs s bufs fuel Hc Hfs Hne Ht Hfl Hfuel. cbv zeta. apply res_ok_monitor.
+  intros c fs s bufs fuel Hc Hfs Ht Hfl Hfuel. cbv zeta. apply res_ok_monitor.
   apply drive_spec' with (lg := []); [exact Hc| |reflexivity|].
-  - apply new_reader_bnd'; try assumption. apply nt_of_not_ends_idle, Hne.
+  - apply new_reader_bnd'; assumption.
   - unfold sz, idle_r, new_reader. rsimpl. rewrite Hfl. lia.
 Qed.
 
 Theorem reader_valid_stream_idle : forall c fs s bufs fuel,
-  wf_cfg c -> Forall wf_sframe fs -> ~ ends_idle s -> tl s = TEOF -> flat s = wire fs ->
+  wf_cfg c -> Forall wf_sframe fs -> tl s = TEOF -> flat s = wire fs ->
   (length (wire fs) + idle_reads s + 2 <= fuel)%nat ->
   sr_out (spec_run c 0 None [] fs) = OClean ->
   let d := drive fuel bufs (new_reader s (c_state c) false (c_check_utf8 c) (c_max c) (c_ext c) CbReadAll) in
   dr_err d = RIo EEOF /\ evs_match (sr_events (spec_run c 0 None [] fs)) (dr_events d) = true.
 Proof.
-  intros c fs s bufs fuel Hc Hfs Hne Ht Hfl Hfuel Hout. cbv zeta.
-  pose proof (reader_meets_spec_idle c fs s bufs fuel Hc Hfs Hne Ht Hfl Hfuel) as H. cbv zeta in H.
+  intros c fs s bufs fuel Hc Hfs Ht Hfl Hfuel Hout. cbv zeta.
+  pose proof (reader_meets_spec_idle c fs s bufs fuel Hc Hfs Ht Hfl Hfuel) as H. cbv zeta in H.
   unfold reader_monitor, expected_events in H. rewrite Hout in H.
   apply andb_true_iff in H. destruct H as [H _]. apply andb_true_iff in H. destruct H as [H1 H2].
   split; [|exact H1]. unfold err_matches in H2.
@@ -504,16 +501,16 @@ Qed.
 (* ------------------------------------------------------------------ helper.go:ReadMessage, repeated *)
 
 Lemma read_messages_spec' state bufs : wf_cfg (rm_cfg state) -> forall fuel fs k evs acc s,
-  Forall wf_sframe fs -> nt_chunks (chunks s) -> tl s = TEOF -> flat s = wire fs ->
+  Forall wf_sframe fs -> tl s = TEOF -> flat s = wire fs ->
   evs_match evs acc = true -> (length (wire fs) + idle_reads s + 2 <= fuel)%nat ->
   let res := spec_run (rm_cfg state) k None evs fs in
   evs_match (sr_events res) (fst (read_messages fuel bufs s state acc)) = true /\
   err_matches (sr_out res) (snd (read_messages fuel bufs s state acc)) = true.
 Proof.
   intros Hc. set (c := rm_cfg state) in *.
-  induction fuel as [|fuel IH]; intros fs k evs acc s Hfs Hnt Ht Hfl Hev Hfuel; [lia|].
+  induction fuel as [|fuel IH]; intros fs k evs acc s Hfs Ht Hfl Hev Hfuel; [lia|].
   cbv zeta. cbn [read_messages]. unfold read_message.
-  pose proof (new_reader_bnd' c fs s Hc Hfs Hnt Ht Hfl) as HB.
+  pose proof (new_reader_bnd' c fs s Hc Hfs Ht Hfl) as HB.
   change (new_reader s (c_state c) false (c_check_utf8 c) (c_max c) (c_ext c) CbReadAll)
     with (new_reader s state false true 0 false CbReadAll) in HB.
   assert (Hsz: sz (new_reader s state false true 0 false CbReadAll) = (length (wire fs) + idle_reads s)%nat).
@@ -541,7 +538,6 @@ Proof.
         cbn [fst snd].
         apply IH.
         -- exact (Bnd'_wf _ _ _ _ _ HB').
-        -- exact (proj2 HB').
         -- exact (Bnd'_tl _ _ _ _ _ HB').
         -- exact Hfl'.
         -- apply evs_match_app2; [exact Hev|]. rewrite (Bnd'_log _ _ _ _ _ HB').
@@ -556,37 +552,15 @@ Proof.
 Qed.
 
 Theorem read_message_meets_spec_idle : forall fs state s bufs fuel,
-  wf_cfg (mkCfg state true 0 false) -> Forall wf_sframe fs -> ~ ends_idle s -> tl s = TEOF -> flat s = wire fs ->
+  wf_cfg (mkCfg state true 0 false) -> Forall wf_sframe fs -> tl s = TEOF -> flat s = wire fs ->
   (length (wire fs) + idle_reads s + 2 <= fuel)%nat ->
   let '(evs, e) := read_messages fuel bufs s state [] in
   reader_monitor (mkCfg state true 0 false) true fs evs None e = true.
 Proof.
-  intros fs state s bufs fuel Hc Hfs Hne Ht Hfl Hfuel.
-  pose proof (read_messages_spec' state bufs Hc fuel fs 0%nat [] [] s Hfs (nt_of_not_ends_idle s Hne) Ht Hfl eq_refl Hfuel) as H.
+  intros fs state s bufs fuel Hc Hfs Ht Hfl Hfuel.
+  pose proof (read_messages_spec' state bufs Hc fuel fs 0%nat [] [] s Hfs Ht Hfl eq_refl Hfuel) as H.
   cbv zeta in H. destruct (read_messages fuel bufs s state []) as [evs e]. cbn [fst snd] in H.
   destruct H as [H1 H2]. unfold reader_monitor, expected_events. fold (rm_cfg state).
   rewrite H1, H2. cbn [andb]. destruct (sr_out _); reflexivity.
 Qed.
 
-(* ------------------------------------------------------------------ the side condition is needed (of the MODEL) *)
-(* an idle read between the last byte and the end of the stream: the model's
-   io.ReadFull ([read_full_aux] sets [got] after ANY chunk, also an empty one)
-   reports an unexpected EOF for the header read that follows the last message,
-   so the loop ends with RIo EUnexpected where the spec says clean EOF.
-   Go's io.ReadFull returns io.EOF there (n = 0 bytes read): the real Reader ends
-   cleanly; this is an artefact of coq/lib/Stream.v, not of gobwas/ws. *)
-Lemma reader_idle_trailing_refuted :
-  exists c fs s bufs fuel,
-    wf_cfg c /\ Forall wf_sframe fs /\ ends_idle s /\ tl s = TEOF /\ flat s = wire fs /\
-    (length (wire fs) + idle_reads s + 2 <= fuel)%nat /\
-    sr_out (spec_run c 0 None [] fs) = OClean /\
-    let d := drive fuel bufs (new_reader s (c_state c) false (c_check_utf8 c) (c_max c) (c_ext c) CbReadAll) in
-    dr_events d = [mkEv 2 [7] false false] /\ dr_err d = RIo EUnexpected /\
-    reader_monitor c true fs (dr_events d) (Some (dr_partial d)) (dr_err d) = false.
-Proof.
-  exists (mkCfg 0 true 0 false), [mkSF true 0 2 None [7]], (mkSrc [[130; 1; 7]; []] TEOF), [2], 100%nat.
-  split; [reflexivity|]. split.
-  { repeat constructor; try reflexivity; try (intro H; discriminate H). }
-  split; [exists [[130; 1; 7]]; reflexivity|]. split; [reflexivity|]. split; [reflexivity|].
-  split; [vm_compute; lia|]. split; [reflexivity|]. vm_compute. repeat split; reflexivity.
-Qed.
